@@ -9,12 +9,13 @@ from rules import status_rules as sr
 from rules import C08
 from engine.facts import walk, expr_str
 from engine.status import is_tracked_type
+from rules import alias_rule
 
 
 def run(ctx):
     ctx.clause = ("in abipkgdiff no accumulated status bit is discarded: per-task results and the removed-binary "
                   "bits are OR-ed, never overwritten, on every path to the exit status")
-    ctx.rules = ["R-STATUS/S5", "R-ACCUM", "R-REMOVED"]
+    ctx.rules = ["R-STATUS/S5", "R-ACCUM", "R-REMOVED", "R-ALIASARG"]
     P, I, main, rets = sr.analyse_tool(ctx, "abipkgdiff", infeasible=C08.l1_prune)
     unit = P.units[sr.TOOLS["abipkgdiff"]]
     tool_funcs = [f for f in unit.functions if not f.dep and P.funcs.get(f.u) is f]
@@ -48,3 +49,9 @@ def run(ctx):
            "values returned on paths that recorded a removed binary: %s" % ", ".join(sr.fmt(v) for v in vals_removed))
     ctx.floor("R-STATUS/S5", "assignments to status variables in abipkgdiff", n_assign, 10)
     ctx.floor("R-ACCUM", "stores into aggregate status fields", n_store, 3)
+    # R-ALIASARG: the keys of the package-content maps (and every other path abipkgdiff derives in place,
+    # `dir_name(key, key)`, `real_path(p, p)` ...) are computed by helpers called with one string as input
+    # and output; a helper that reads its input after touching its output silently merges / loses binaries.
+    PW = ctx.program(None)
+    n_alias = alias_rule.check(ctx, PW, PW.all_funcs(), only_callers=lambda f: f.relfile.endswith("tools/abipkgdiff.cc"))
+    ctx.floor("R-ALIASARG", "helpers abipkgdiff calls with aliased in/out arguments", n_alias, 3)
